@@ -71,10 +71,12 @@ def ref_normalise(spec, shape, old):
     return tuple(out)
 
 
-def _valid_partition(chunks, shape):
+def _valid_partition(chunks, shape, old=None):
     if len(chunks) != len(shape):
         return f"{len(chunks)} axes for shape {shape}"
-    for c, n in zip(chunks, shape):
+    for ax, (c, n) in enumerate(zip(chunks, shape)):
+        if old is not None and ax < len(old) and tuple(c) == tuple(old[ax]):
+            continue  # axis left as it was (a zero-width block the input already had is not the rechunk's doing)
         if isinstance(n, float) and math.isnan(n):
             continue
         if len(c) == 0 or any((not isinstance(v, (int, np.integer))) or v < 0 for v in c) or sum(c) != n:
@@ -88,7 +90,7 @@ def check_rechunk_stmt(s, x, y, fails, labs):
     spec = P.decode_chunks(s["chunks"])
     shape = tuple(x.shape)
     labs.append("spec:" + ("dict" if isinstance(spec, dict) else "str" if isinstance(spec, str) else "int" if isinstance(spec, int) else "seq"))
-    why = _valid_partition(y.chunks, shape)
+    why = _valid_partition(y.chunks, shape, old=x.chunks)
     if why:
         fails.append(("chunks|invalid", f"{s}: {why}"))
         return
